@@ -54,15 +54,109 @@ ODDVN = ["1.1", "1.2", "2.1", "3.0", "1", "2", "1.00", "gfa1"]
 NEUTRAL = ["H", "H\txx:i:1", "H\tyy:Z:a b\tab:f:1.5", "# c", "#", "H\txx:i:2", "# S\tA\t*"]
 
 
+RGFA_SN = ["chr1", "chr2", "s 1"]
+
+
+def gen_rgfa_doc(rng, syntax):
+    """A document that satisfies the rules of the rGFA dialect (segments with SN:Z SO:i SR:i, links with overlap 0M
+    and optional SR/L1/L2 integer tags, no H/C/P), written in GFA1 syntax - valid rGFA - or, the same content, in
+    GFA2 syntax (S with a length, sometimes a `*` edge or a fragment): GFA2 content that passes every rule of the
+    dialect except the one C13 is about, that the dialect means GFA1."""
+    names = list(D.SEG1)
+    rng.shuffle(names)
+    names = names[:rng.choice([1, 2, 2, 3])]
+    lines = []
+    for k, n in enumerate(names):
+        ln = rng.choice([4, 6, 8])
+        seq = rng.choice(["*", "ACGTACGT"[:ln]])
+        tg = ["SN:Z:" + rng.choice(RGFA_SN), "SO:i:%d" % rng.choice([0, 4, 100]), "SR:i:%d" % rng.choice([0, 0, 1, 2])]
+        if rng.random() < 0.3:
+            tg += D.gen_custom_tags(rng, 1, odd=0.1, types="iZAf")
+        rng.shuffle(tg)
+        if syntax == "gfa1":
+            lines.append("\t".join(["S", n, seq] + (["LN:i:%d" % ln] if seq == "*" and rng.random() < 0.5 else []) + tg))
+        else:
+            lines.append("\t".join(["S", n, str(ln), seq] + tg))
+    for _ in range(rng.choice([0, 1, 1, 2])):
+        if len(lines) >= 5:
+            break
+        a, b = rng.choice(names), rng.choice(names)
+        if syntax == "gfa1":
+            tg = [t for t in ["SR:i:1", "L1:i:4", "L2:i:6"] if rng.random() < 0.4]
+            x = "\t".join(["L", a, rng.choice("+-"), b, rng.choice("+-"), "0M"] + tg)
+        else:
+            x = rng.choice(["E\t*\t%s+\t%s-\t0\t0\t0\t0\t*" % (a, b), "F\t%s\tread1+\t0\t0\t0\t0\t*" % a,
+                            "G\t*\t%s+\t%s-\t10\t*" % (a, b), "# c"])
+        if x not in lines or not x.startswith("L"):
+            lines.append(x)
+    if rng.random() < 0.25 and len(lines) < 5:
+        lines.append("# rGFA")
+    rng.shuffle(lines)
+    return lines
+
+
+def repeatable(l):
+    """lines a document may contain several times: records without an identifier (the GFA specifications give
+    identity only to named records), i.e. containments without ID tag, fragments, `*`-named E/G/O/U, custom
+    records; and comments"""
+    f = l.split("\t")
+    if l.startswith("#"):
+        return True
+    if f[0] == "C":
+        return not any(t.startswith("ID:") for t in f[7:])
+    if f[0] == "F":
+        return True
+    if f[0] in ("E", "G", "O", "U"):
+        return len(f) > 1 and f[1] == "*"
+    return f[0] not in ("H", "S", "L", "P")
+
+
+def add_repeats(rng, lines, version, maxn):
+    """repeat one repeatable line of the document (a synthesised one on a segment of the document when it has
+    none, most often of a record type that is queued while the version is unknown: C resp. a custom record)"""
+    cand = [l for l in lines if repeatable(l)]
+    queued = [l for l in cand if not l.startswith("#") and l.split("\t")[0] not in ("E", "F", "G", "O", "U")]
+    if queued and rng.random() < 0.8:
+        cand = queued
+    segs = [l.split("\t")[1] for l in lines if l.startswith("S\t")]
+    if (not queued and rng.random() < 0.7) or not cand:
+        if version == "gfa1":
+            if not segs:
+                return lines
+            x = "C\t%s\t%s\t%s\t%s\t0\t*" % (rng.choice(segs), rng.choice("+-"), rng.choice(segs), rng.choice("+-"))
+        else:
+            x = rng.choice(["X\tfoo", "Y\tbar baz\txx:i:1", "zz", "Q1\t12\t*"])
+        if len(lines) >= maxn - 1:
+            return lines
+        lines = lines + [x]
+    else:
+        x = rng.choice(cand)
+    out = list(lines)
+    for _ in range(rng.choice([1, 1, 1, 2])):
+        if len(out) < maxn:
+            out.insert(rng.randint(0, len(out)), x)
+    return out
+
+
 def gen_case(rng, tier, i):
-    kind = rng.choice(["pure1", "pure2", "neutral", "mixed", "mixed", "mixed", "pure1", "pure2", "oddvn"])
+    kind = rng.choice(["pure1", "pure2", "neutral", "mixed", "mixed", "mixed", "pure1", "pure2", "oddvn", "rgfa"])
     big = tier != "quick"
-    if kind == "neutral":
+    dialect = None
+    repeat = kind in ("pure1", "pure2", "mixed") and rng.random() < 0.3
+    if kind == "rgfa":
+        label = rng.choice(["gfa1", "gfa2"])
+        lines = gen_rgfa_doc(rng, label)
+        dialect = "rgfa" if rng.random() < 0.85 else None
+        if rng.random() < 0.15:
+            lines = add_repeats(rng, lines, label, 6)
+    elif kind == "neutral":
         lines = [rng.choice(NEUTRAL) for _ in range(rng.randint(1, 4))]
         label = None
     else:
         base_v = {"pure1": "gfa1", "pure2": "gfa2"}.get(kind) or rng.choice(["gfa1", "gfa2"])
         ml = rng.choice([1, 2, 3, 4, 5, 6] if kind != "mixed" else [1, 2, 3, 4, 5])
+        if repeat:
+            ml = min(ml, 4)
         if big:
             ml += rng.choice([0, 0, 1, 2])
         d = D.gen_doc(rng, version=base_v, max_lines=ml, same_id_groups=False, odd=0.15, taglike=0.2,
@@ -94,11 +188,15 @@ def gen_case(rng, tier, i):
                     if nid:
                         new_ids.add(nid)
                     lines.insert(rng.randint(0, len(lines)), x)
+        if repeat:
+            lines = add_repeats(rng, lines, base_v, 6 if not big else 8)
     vparam = rng.choice([None, None, "gfa1", "gfa2"])
-    if kind.startswith("pure") and rng.random() < 0.6:
-        vparam = rng.choice([None, label])
+    if (kind.startswith("pure") or kind == "rgfa") and rng.random() < 0.6:
+        vparam = rng.choice([None, None, label]) if kind == "rgfa" else rng.choice([None, label])
+    if kind in ("pure1", "pure2", "mixed", "neutral") and rng.random() < 0.12:
+        dialect = "rgfa"
     return {"kind": kind, "lines": lines, "label": label, "vparam": vparam, "vlevel": rng.choice([1, 1, 2, 3, 0]),
-            "sample": rng.randrange(10 ** 6)}
+            "sample": rng.randrange(10 ** 6), "dialect": dialect}
 
 
 # ------------------------------------------------------------------ independent classification (text only)
@@ -122,6 +220,24 @@ def line_class(l):
     return "c"
 
 
+def rgfa_valid(lines):
+    """text-level: the document obeys the rules of the rGFA dialect (GFA1 syntax assumed)"""
+    for l in lines:
+        if l.startswith("#"):
+            continue
+        f = l.split("\t")
+        tg = {t[:2]: t[3] for t in f[D.split_tags(f):]}
+        if f[0] == "S":
+            if (tg.get("SN"), tg.get("SO"), tg.get("SR")) != ("Z", "i", "i"):
+                return False
+        elif f[0] == "L":
+            if len(f) < 6 or f[5] != "0M" or any(tg.get(t, "i") != "i" for t in ("SR", "L1", "L2")):
+                return False
+        else:
+            return False
+    return True
+
+
 def required(case):
     cl = [line_class(l) for l in case["lines"]]
     R = set()
@@ -131,8 +247,16 @@ def required(case):
         R.add("gfa2")
     if case["vparam"]:
         R.add(case["vparam"])
+    rgfa = case.get("dialect") == "rgfa"
+    content_or_param = set(R)
+    if rgfa:
+        R.add("gfa1")
     oddvn = any(c == "?" and l.startswith("H") for l, c in zip(case["lines"], cl))
     unspecified = any(c == "?" and not l.startswith("H") for l, c in zip(case["lines"], cl)) or ("c" in cl and "gfa1" in R)
+    if rgfa and len(R) == 1 and ("gfa1" not in content_or_param or not rgfa_valid(case["lines"])):
+        # no contradiction: whether the document is accepted is decided by the other rules of the dialect (or, when
+        # nothing but the dialect speaks for GFA1, by the documented default guess gfa2), not by C13
+        unspecified = True
     if oddvn and not unspecified:
         unspecified = "oddvn"
     header_only_conflict = False
@@ -146,6 +270,8 @@ def required(case):
             R2.add("gfa2")
         if case["vparam"]:
             R2.add(case["vparam"])
+        if rgfa:
+            R2.add("gfa1")
         header_only_conflict = len(R2) < 2
     return R, unspecified, header_only_conflict
 
@@ -163,6 +289,12 @@ def tags(case):
         t.append("unspecified")
     if hoc:
         t.append("conflict-via-VN-only")
+    if case.get("dialect"):
+        t.append("dialect:" + case["dialect"])
+    if any(n > 1 for n in Counter(case["lines"]).values()):
+        t.append("repeated-line")
+        if any(n > 1 and line_class(l) in "1c" and l.split("\t")[0] != "S" for l, n in Counter(case["lines"]).items()):
+            t.append("repeated-queued-line")
     t += ["rt:" + (l.split("\t")[0] if not l.startswith("#") else "#") for l in case["lines"]]
     return sorted(set(t))
 
@@ -178,18 +310,19 @@ def _count_keys(lines, version):
     return c
 
 
-def load(gfapy, entry, lines, vlevel, vparam):
+def load(gfapy, entry, lines, vlevel, vparam, dialect=None):
+    kw = {"dialect": dialect} if dialect else {}
     try:
         if entry == "list":
-            g = gfapy.Gfa(list(lines), vlevel=vlevel, version=vparam)
+            g = gfapy.Gfa(list(lines), vlevel=vlevel, version=vparam, **kw)
         elif entry == "str":
-            g = gfapy.Gfa("\n".join(lines), vlevel=vlevel, version=vparam)
+            g = gfapy.Gfa("\n".join(lines), vlevel=vlevel, version=vparam, **kw)
         else:
             fd, path = tempfile.mkstemp(prefix="c13_", suffix=".gfa", dir="/tmp")
             try:
                 with os.fdopen(fd, "w", newline="") as f:
                     f.write("".join(l + "\n" for l in lines))
-                g = gfapy.Gfa.from_file(path, vlevel=vlevel, version=vparam)
+                g = gfapy.Gfa.from_file(path, vlevel=vlevel, version=vparam, **kw)
             finally:
                 try:
                     os.unlink(path)
@@ -207,6 +340,7 @@ def load(gfapy, entry, lines, vlevel, vparam):
 def oracle(case):
     gfapy = lib.import_gfapy()
     lines, vparam, vlevel = case["lines"], case["vparam"], case["vlevel"]
+    dialect = case.get("dialect")
     R, unspecified, hoc = required(case)
     n = len(lines)
     perms = list(itertools.permutations(range(n))) if n <= 6 else None
@@ -236,8 +370,9 @@ def oracle(case):
     for pi, p in enumerate(perms):
         perm = [lines[i] for i in p]
         for entry in (["list", "str", "file"] if pi in extra else ["list"]):
-            out, g = load(gfapy, entry, perm, vlevel, vparam)
-            where = "%s of %r (version=%s, vlevel=%d)" % (entry, perm, vparam, vlevel)
+            out, g = load(gfapy, entry, perm, vlevel, vparam, dialect)
+            where = "%s of %r (version=%s, vlevel=%d%s)" % (entry, perm, vparam, vlevel,
+                                                             ", dialect=%s" % dialect if dialect else "")
             if out[0].startswith("foreign:"):
                 add("foreign-exception[%s]" % out[0][8:], "%s raised %s %s" % (where, out[0][8:], out[1]))
             if check_consistency:
